@@ -187,7 +187,13 @@ def gen_reject(rng, cmd):
     if cls == "unknown_aggregator" and bad[0] == "-Tagg":
         if not any(g[0] == "-T" for g in groups):
             groups.append(["-T", "6"])
-    argv = linearise(rng, cmd, groups + [bad])
+    extra = []
+    parse_time = cls in ("unknown_flag", "malformed_vector", "unknown_axis", "quantile_range") or bad[0] == "-Tagg"
+    if parse_time and rng.random() < 0.15:
+        # these are detected while the command line is parsed, so --version / --help (acted upon after
+        # parsing) must not mask them, wherever they stand
+        extra = [[rng.choice(["--version", "--help"])]]
+    argv = linearise(rng, cmd, groups + [bad] + extra)
     return cls, argv, bad
 
 
@@ -250,7 +256,7 @@ def gen_file_fault(rng, world, cmd):
         # NetCDF inputs are opened three times through netCDF4.Dataset (type detection twice, constructor);
         # text inputs once through builtins.open (the NetCDF probe of a text file fails anyway)
         return {"type": "open_error", "file": name, "nth": rng.randint(1, 3) if is_nc else 1, "errno": rng.choice(ERRNOS),
-                "seam": "dataset" if is_nc else "open"}
+                "seam": "dataset" if is_nc else "open", "persistent": rng.random() < 0.5}
     if r < 0.45 and not is_nc:
         return {"type": "read_error", "file": name, "after": rng.randint(0, 6)}
     others = [p["name"] for p in W.parties(world) if p["name"] != name]
